@@ -206,7 +206,7 @@ def cases(draw, tier="quick"):
     ops = []
     for _ in range(nops):
         kind = draw(st.sampled_from(["inode", "inode", "lsdir", "lsdir", "lspart", "resolve", "inum", "read", "read", "block", "frag", "stream", "cross", "xattr",
-                                     "xdesc", "id", "mseek", "mseek", "root", "iprobe"]))
+                                     "xdesc", "id", "mseek", "mseek", "root", "iprobe", "rawls", "rawls", "rawcont"]))
         ops.append((kind, draw(st.integers(0, 10 ** 6)), draw(st.integers(0, 10 ** 6)), draw(st.integers(0, 10 ** 6)), draw(st.integers(0, 9))))
     return dict(pool=pi, ops=ops)
 
@@ -254,6 +254,11 @@ def render(case, P):
             lines.append("lsdir %d" % (rnd_ref if bad else (dirs[a % len(dirs)] if inv != 1 else allr[a % len(allr)])))
         elif kind == "lspart":
             lines.append("lspart %d %d" % (dirs[a % len(dirs)], b % 5))
+        elif kind == "rawls":
+            # low-level cursor, one object for the whole history: partial listings (0..4 entries) leave it in the middle of a header run
+            lines.append("rawls %d %d" % (rnd_ref if bad else (dirs[a % len(dirs)] if inv != 1 else allr[a % len(allr)]), -1 if c % 4 == 0 else b % 5))
+        elif kind == "rawcont":
+            lines.append("rawcont %d" % (-1 if c % 4 == 0 else 1 + b % 5))
         elif kind == "resolve":
             if bad or not P["paths"]:
                 lines.append("resolve %s" % ["nonexistent/x", "/", "..", "sub/../../x", "many/e0000/x", "big/", "//sub//deep", ""][a % 8])
@@ -324,6 +329,11 @@ def check_case(case, opts):
         nfail = int(parts[2]) if len(parts) >= 3 else 0
         cl = ["img_" + os.path.basename(P["path"]).split(".")[0].split("_")[0] + ("_damaged" if P["damaged"] else "")]
         # non-trivial: a failed operation followed by further operations on the same readers
+        raw = [i for i, l in enumerate(lines) if l.startswith("rawls ")]
+        if len(raw) >= 2:
+            cl.append("raw_cursor_reused")
+        if any(l.startswith("rawcont ") and not lines[i - 1].startswith("raw") for i, l in enumerate(lines) if raw and i > raw[0]):
+            cl.append("raw_cursor_continued_after_other_op")
         return CaseInfo(nfail >= 1 and len(lines) >= 4, cl + (["has_failed_op"] if nfail else []))
 
 
